@@ -403,11 +403,6 @@ fn witnesses(rep: &mut Report) {
             cfg: plain(None, Some(vec![("a.c".into(), "x\\..\\y.c".into())])),
             entries: vec![("a.c".to_string(), gen_cov(&mut Rng::new(1), 0))],
         }),
-        // C11_relative_under_source_dir_false: <root>/x/../src/a.c, x does not exist
-        ("dotdot_not_relativised", Case {
-            cfg: plain(Some(t.src.clone()), None),
-            entries: vec![(format!("{}/x/../src/a.c", t.root), gen_cov(&mut Rng::new(2), 0))],
-        }),
     ];
     for (name, case) in cases {
         let out = show_recs(&run_impl(&case.cfg, &case.entries));
@@ -418,6 +413,55 @@ fn witnesses(rep: &mut Report) {
         check_case(rep, &t, &case, &out, &model[0]);
     }
     std::env::set_current_dir("/verif").unwrap();
+}
+
+/// one recorded rewrite case: oracle, model tie, and the recorded expectation when there is one
+fn run_fixed(rep: &mut Report, case: &serde_json::Value) {
+    let base = rep.workdir.join("fs");
+    let t = tree_from_json(&base, &case["tree"]);
+    std::env::set_current_dir(&t.cw).unwrap();
+    let c = Case::from_json(case);
+    let r = run_impl(&c.cfg, &c.entries);
+    let out = show_recs(&r);
+    let req = request("rewrite", &t, &c.cfg, &c.entries);
+    let model = run_model_named("gm_c11", &[req.clone()], &rep.workdir, "fixed");
+    rep.case(&req, true);
+    if let Some(exp) = case["expect"].as_array() {
+        let mut want: Vec<(String, String)> = exp
+            .iter()
+            .map(|e| (e[0].as_str().unwrap().to_string(), e[1].as_str().unwrap().to_string()))
+            .collect();
+        want.sort();
+        let mut got: Vec<(String, String)> = match &r {
+            Ok(v) => v.iter().map(|(a, r, _)| (a.clone(), r.clone())).collect(),
+            Err(_) => vec![("panic".into(), "panic".into())],
+        };
+        got.sort();
+        if got != want {
+            rep.fail("oracle", None,
+                format!("corpus case: reported (abs, rel) {:?}, recorded expectation {:?}", got, want), case.clone());
+        }
+    }
+    check_case(rep, &t, &c, &out, &model[0]);
+    std::env::set_current_dir("/verif").unwrap();
+}
+
+/// minimised past failures, replayed first
+fn corpus(rep: &mut Report) {
+    let mut files: Vec<_> = std::fs::read_dir("/verif/corpus/C11")
+        .map(|d| d.filter_map(|e| e.ok()).map(|e| e.path()).collect())
+        .unwrap_or_default();
+    files.sort();
+    for f in files {
+        if f.extension().map(|e| e == "json").unwrap_or(false) {
+            if let Ok(text) = std::fs::read_to_string(&f) {
+                if let Ok(v) = serde_json::from_str::<serde_json::Value>(&text) {
+                    rep.count("corpus.case");
+                    run_fixed(rep, &v);
+                }
+            }
+        }
+    }
 }
 
 pub fn run(rep: &mut Report) {
@@ -432,6 +476,7 @@ pub fn run(rep: &mut Report) {
         .to_string();
     // corrlib's Rng::new is linear in the seed (seed+2 is the same stream two draws later): hash it first
     let mut rng = Rng::new(fnv64(&(rep.seed ^ 0xC11).to_le_bytes()));
+    corpus(rep);
     witnesses(rep);
     path_ops(rep, &mut rng);
     glob_ops(rep, &mut rng);
@@ -442,18 +487,7 @@ pub fn run(rep: &mut Report) {
 
 pub fn replay(rep: &mut Report, case: &serde_json::Value) {
     match case["op"].as_str().unwrap_or("") {
-        "rewrite" => {
-            let base = rep.workdir.join("fs");
-            let t = tree_from_json(&base, &case["tree"]);
-            std::env::set_current_dir(&t.cw).unwrap();
-            let c = Case::from_json(case);
-            let out = show_recs(&run_impl(&c.cfg, &c.entries));
-            let req = request("rewrite", &t, &c.cfg, &c.entries);
-            let model = run_model_named("gm_c11", &[req.clone()], &rep.workdir, "replay");
-            rep.case(&req, true);
-            check_case(rep, &t, &c, &out, &model[0]);
-            std::env::set_current_dir("/verif").unwrap();
-        }
+        "rewrite" => run_fixed(rep, case),
         "norm" => {
             let p = case["path"].as_str().unwrap().to_string();
             let got = grcov::normalize_path(Path::new(&p)).map(|x| x.to_str().unwrap().to_string());
